@@ -312,6 +312,7 @@ func (e *Engine) applyContract(fr *Frame, st *State, ins ssa.Instruction, c *Con
 	}
 	old := st.clone()
 	allocBefore := st.allocTerm()
+	st.allocN += c.Allocates
 	// frame
 	if !c.HasMod {
 		if !c.Trusted && !c.Pure {
@@ -460,11 +461,44 @@ func (e *Engine) havocItem(st *State, env *SpecEnv, item string) {
 			} else {
 				e.havocObject(st, v.V, v.T)
 			}
-		case "dyn":
-			// the object behind an interface value: needs a statically known dynamic type
+		case "dyn", "dynfresh":
+			// the object behind an interface value: needs a statically known dynamic type.
+			// dynfresh: whatever references the callee stores into it are nil or freshly allocated (a decoder
+			// such as json.Unmarshal builds new maps / slices / objects, it never links existing ones)
 			if id, ok := v.V.Fs[0].T.intVal(); ok && id.IsInt64() && typeIDTypes[id.Int64()] != nil {
 				dt := typeIDTypes[id.Int64()]
+				before := st.allocTerm()
 				e.havocObject(st, Val{T: v.V.Fs[1].T}, dt)
+				if x.Fn == "dynfresh" {
+					if pt, ok := dt.Underlying().(*types.Pointer); ok && !isBigInt(pt.Elem()) && kindOf(pt.Elem()) != kOpaque {
+						nv := st.load(derefPlace(v.V.Fs[1].T, dt))
+						ls := leaves(pt.Elem())
+						ts := nv.flat()
+						n := 0
+						for i, l := range ls {
+							isRef := (l.typ != nil && kindOf(l.typ) == kRef) || strings.HasSuffix(l.path, "#arr")
+							if isRef {
+								n++
+								st.allocN++
+								st.assume(Or(Eq(ts[i], IntLit(0)), And(Ge(ts[i], before), Lt(ts[i], st.allocTerm()))))
+							}
+						}
+						_ = n
+						// one level deeper for maps of slices: the decoded slices have fresh backing arrays too
+						if mt, ok := pt.Elem().Underlying().(*types.Map); ok {
+							if _, isSl := mt.Elem().Underlying().(*types.Slice); isSl && kindOf(mt.Elem()) == kSlice {
+								if ks, ok := mapKeySort(mt); ok {
+									m := ts[0]
+									st.allocN += 64
+									k := BoundVar("df_k", ks)
+									outer := st.heapGet(mapValKey(mt, "#arr"), arrSort(SInt, arrSort(ks, SInt)))
+									a := Select(Select(outer, m), k)
+									st.assume(Forall([]*Term{k}, Or(Eq(a, IntLit(0)), And(Ge(a, before), Lt(a, st.allocTerm()))), a))
+								}
+							}
+						}
+					}
+				}
 			} else {
 				st.havocAll()
 			}
